@@ -47,7 +47,7 @@ def norm(x):
 
 
 _SLOT_OPS = {"slice": (1, 2), "fslice": (1, 2), "todir": (1, 2), "toundir": (1, 2), "snaprt": (1, 2), "intrt": (1, 2),
-             "nlrt": (1, 2), "nlrt2": (1, 2), "nlidattr": (1,), "filert": (2, 3), "textrt": (2, 3), "textrtn": (2, 3), "confp": (1,), "confh": (1,), "confw": (1,), "sconfh": (1,), "trps": (1,), "trpsub": (1,), "occrt": (), "rsnap": (1,), "rint": (1,), "rkeys": (2,), "ptxt": (2,), "ptxts": (2,)}
+             "nlrt": (1, 2), "nlrt2": (1, 2), "nlidattr": (1,), "nlrecs": (), "nlimp": (), "filert": (2, 3), "textrt": (2, 3), "textrtn": (2, 3), "confp": (1,), "confh": (1,), "confw": (1,), "sconfh": (1,), "trps": (1,), "trpsub": (1,), "occrt": (), "rsnap": (1,), "rint": (1,), "rkeys": (2,), "ptxt": (2,), "ptxts": (2,)}
 _WARM_OFF = 20
 
 
